@@ -229,6 +229,9 @@ def oracle_recovery(case, lines, insts):
 
 
 def run_shard(campaign, shard, nshards, seed, tier):
+    if campaign == 'api':
+        import apiuse
+        return apiuse.run_api('C06', shard, nshards, seed, tier)
     part = Part()
     rng = random.Random('%s/%s/%s' % (seed, campaign, shard))
     quick = tier != 'thorough'
@@ -255,4 +258,6 @@ def run(ctx):
     run_sharded(ctx, 'C06', 'anomaly')
     run_sharded(ctx, 'C06', 'recovery')
     ctx.exhaustive['11 anomaly kinds x every frame position of each generated stream'] = True
-    return RULE, ASSUME
+    run_sharded(ctx, 'C06', 'api', nshards=2)
+    import apiuse
+    return RULE + apiuse.rule_text('C06'), ASSUME
